@@ -49,3 +49,13 @@ m = {
 }
 (V / "MANIFEST.json").write_text(json.dumps(m, indent=1) + "\n")
 print(f"MANIFEST.json: {len(checks)} checks, {len(na)} not_applicable")
+
+# merge findings.d/*.json into known_findings.json (entries keyed by id; known_findings.json entries win)
+kf = json.loads((V / "known_findings.json").read_text())
+have = {f["id"] for f in kf["findings"]}
+for f in sorted((V / "findings.d").glob("*.json")):
+    for e in json.loads(f.read_text()):
+        if e["id"] not in have:
+            kf["findings"].append(e); have.add(e["id"])
+(V / "known_findings.json").write_text(json.dumps(kf, indent=1) + "\n")
+print(f"known_findings.json: {len(kf['findings'])} entries")
